@@ -872,6 +872,21 @@ func (s *c09Space) rule() string {
 	return sb.String()
 }
 
+// c09Unit returns a multiplier near 0.618*n that is coprime to n (i -> i*m mod n is then a permutation of 0..n-1).
+func c09Unit(n int64) int64 {
+	gcd := func(a, b int64) int64 {
+		for b != 0 {
+			a, b = b, a%b
+		}
+		return a
+	}
+	m := n*618/1000 + 1
+	for gcd(m, n) != 1 {
+		m++
+	}
+	return m % n
+}
+
 func c09Run(env *mc.Env, sp *c09Space) {
 	if only := os.Getenv("VERIF_ONLY"); only != "" {
 		okPart, _ := regexp.MatchString(only, sp.part)
@@ -919,6 +934,7 @@ func c09Run(env *mc.Env, sp *c09Space) {
 		}
 		return id
 	}
+	perm := c09Unit(orx.Size())
 	start := time.Now()
 	deadline := start.Add(24 * time.Hour)
 	if sp.share > 0 && env.Thorough() { // quick products are small: first come, first served
@@ -934,7 +950,9 @@ func c09Run(env *mc.Env, sp *c09Space) {
 		if i256%256 != 0 {
 			return
 		}
-		i := i256 / 256
+		// visit the outer tuples in a fixed scattered order (multiplication by a unit modulo their number) so that
+		// a run that hits its time budget has covered every dimension evenly instead of a prefix
+		i := (i256 / 256) * perm % orx.Size()
 		if env.Expired() || time.Now().After(deadline) {
 			skipped.Add(1)
 			return
